@@ -251,7 +251,9 @@ void Exec::check_dump(Obj &o, const char *when) {
 	int variant = step + o.uid;
 	bool ok = lib_dump(o.p, variant, got, err);
 	after_lib_call("query");
-	if (!ok) { violate("C06", std::string("query-failed:") + (op ? op->kind : "?"), std::string(when) + ": " + err); o.broken = true; return; }
+	// a name lookup that answers with the wrong index leaves problem and model in step: the object stays in use, so that the checks of the
+	// properties that depend on names (basis files, named edits) still get to see what the stale index does there
+	if (!ok) { violate("C06", std::string("query-failed:") + (op ? op->kind : "?"), std::string(when) + ": " + err); if (err.find("_index(") == std::string::npos) o.broken = true; return; }
 	std::string a = got.canon(true), b = o.m.canon(true);   // the range a non-ranged row reports is observable too (QSget_ranged_rows): it is zero
 	if (a == b && (got.lib_nzcount < o.m.nz() || got.lib_nzcount > o.m.nz() + o.m.zeros()))
 		violate("C06", std::string("nzcount:") + (op ? op->kind : "?") + (op && op->has("what") ? ":" + op->s("what") : ""), strf("%s: QSget_nzcount=%d but the problem has %d nonzeros (+%d explicit zeros)", when, got.lib_nzcount, o.m.nz(), o.m.zeros()));
